@@ -19,6 +19,7 @@ var propTable = map[string]propDesc{
 			"R31: readLocation fills every field of the reused Location; reused result slots are cleared before they are handed out",
 			"R28: the chunked int coders reused from term to term are Reset after each term is written",
 			"R29: every component encoded per location (field, position, start, end, array-position count) is computed from that very location",
+			"R29b: the frequency and has-locations flag encoded with a posting are computed inside the loop over the postings",
 		},
 		NotDecided: []string{"which documents/frequencies/norms/locations come back", "sizing of the shared backing arrays by the counting pass", "varint contents"},
 		Explain:    "Narrow claim: writer/reader agreement on chunk-size derivation is a necessary condition named in the property's own anchors.",
@@ -31,6 +32,7 @@ var propTable = map[string]propDesc{
 			"R26: DocNumbers looks at every given id (loop left early only on error)",
 			"R33: the running data offset and buffer of persistStoredFieldValues are handed back as accumulated",
 			"R27: stored-document index entries are u64 big endian at storedIndexOffset + 8*docNum on both sides",
+			"R27e: the stored block of a document is always snappy-encoded by the writers and always decoded by the reader",
 		},
 		NotDecided: []string{"byte-for-byte round trip of values, types, array positions", "DocNumbers' max-key short cut"},
 	},
@@ -60,6 +62,7 @@ var propTable = map[string]propDesc{
 			"R17: raw byte copy of stored documents only under fieldsSame and an empty drop bitmap",
 			"R24: dropped documents get the sentinel and nothing else; every consumer of the renumbering tests the sentinel first",
 			"R16: the field-record offset 0 ('absent' for the reader) cannot be written by the merge (known finding F6 on the no-survivor path)",
+			"R25d: the per-field scratch tables of the stored-field merge are reset over the length they were allocated with",
 		},
 		NotDecided: []string{"consecutive numbering of survivors", "content of carried-over stored data", "DocID/DocNumbers answers"},
 	},
@@ -83,11 +86,13 @@ var propTable = map[string]propDesc{
 		Decides: []string{
 			"R12: every reuse path resets every field except tabled buffers, and cleans the buffers whose stale content would be read",
 			"R11: a decoded postings list's encoding tag describes the entry just decoded",
+			"R11b: the bitmap of a postings list is used only after its 1-hit tag was found zero",
 		},
 		NotDecided: []string{"lock-step of the three cursors under Next/Advance", "Count arithmetic"},
 	},
 	"C08": {
 		Decides: []string{"R11: the scratch list reused by the dictionary iterator cannot keep a stale 1-hit encoding tag",
+			"R11b: Count looks at the bitmap only after the 1-hit tag was found zero (the dictionary iterator reports Count of a reused scratch list)",
 			"R32: the merge writes a term 1-hit only with frequency exactly 1 (a 1-hit entry with norm bits 0 would not be recognised, and its count would be whatever the scratch list held)"},
 		NotDecided: []string{"automaton/range filtering (vellum)", "ordering", "Contains/Cardinality values"},
 	},
@@ -97,6 +102,7 @@ var propTable = map[string]propDesc{
 			"R13: chunk derivation kinds",
 			"R30: getChunkSize computes the documented v16 chunk size on every region of (mode, cardinality, document count)",
 			"R27: fixed-width big-endian records below the footer (field-table pairs, fields index, stored-document index, doc-value trailer) keep their widths, strides and order on both sides",
+			"R27e: stored blocks are always snappy-encoded / decoded (no length-dependent omission)",
 		},
 		NotDecided: []string{"the uvarint streams below the footer: section table, postings records, stored blocks, doc-value chunks, thesaurus blocks", "files frozen from the pinned release cannot be read by a static check"},
 	},
@@ -156,6 +162,7 @@ var propTable = map[string]propDesc{
 	"C18": {
 		Decides: []string{
 			"R8: every cancellation poll returns the closed error without writing first; a poll dominates the first write of the merge; cancellation exits go through the same cleanup as I/O failures (R6)",
+			"R8c: between a poll and the API every function hands the error of a callee that may report cancellation up unchanged (no wrapping, no replacement)",
 		},
 		NotDecided: []string{"when the channel is observed closed (schedule)"},
 	},
